@@ -177,6 +177,12 @@ def build_mutant(rule, site, draw, ck):
             src = Bin('+', Len(Lit('string', b'ab', None)), I(1))
         else:
             src = draw(st.sampled_from([V(pick(ints)), Bin('+', V(pick(ints)), I(1)), Is(V(pick(ints)), INT), Un('-', V(pick(ints)))]))
+        if draw(st.integers(0, 3)) == 0:
+            # constant ints that are not literals: explicit casts and (in a you function) a ?? of two literals (F11, F12)
+            consts = [Is(I(3), INT), Is(Lit('bool', True, None), INT), Bin('+', Is(I(3), INT), I(1)), Is(Lit('char', 65, None), INT)]
+            if func.name.startswith('@'):
+                consts += [Spec(I(5), I(27)), Bin('*', Spec(I(5), I(5)), I(2))]
+            src = draw(st.sampled_from(consts))
         if rule == 'narrow_decl':
             return [Decl(BYTE, False, fresh, src)]
         if rule == 'narrow_assign':
